@@ -24,6 +24,9 @@ func init() {
 			{ID: "C07.R7", Floor: 1, Run: selectorNoLen, Text: "the selector that fills cache entries and feeds batch operations (getArchetypes) does not test Len(): registration time must not matter"},
 			{ID: "C07.R8", Floor: 1, Run: cacheAddDominance, Text: "Cache.addArchetype adds a table to an entry only where the table has no relation, or the entry's filter is not a relation filter, or the filter's target equals the table's target"},
 			{ID: "C07.R9", Floor: 3, Run: cacheNeverRecycles, Text: "filter ids are never recycled (= C10.R8): unregistering leaves all other registrations working"},
+			{ID: "C07.R10", Floor: 2, Run: indicesNilOrComplete, Text: "the lazily built position index of a cache entry is nil or complete: a fresh map is stored into cacheEntry.Indices only by a function that also fills it for every table of the entry's list"},
+			{ID: "C07.R11", Floor: 1, Run: c07r11, Text: "no write through a pointer to a slice element after that element was overwritten as a whole (swap-remove of cache entries); fixture-backed"},
+			{ID: "C07.R12", Floor: 2, Run: pointerAssertedFilters, Text: "pointer-asserted filter types are implemented by the pointer type only (= C10.R10)"},
 		},
 	})
 }
